@@ -247,6 +247,10 @@ func w1GenLease(r *rand.Rand, c *simrt.Case, nclients, maxOps int) {
 	// the brokers' lease TTL is what newHandler configures (the default, 10 s): sleeps, dropped
 	// keep-alive runs (one every TTL/3) and stalls below are sized around it
 	cfg["partitions"] = 2
+	multiTopic := r.IntN(3) == 0
+	if multiTopic {
+		cfg["topics"] = 2 // the second topic is reached through produce requests that carry every topic
+	}
 	cfg["etcd_lat_us"] = pick[int64](r, 100, 400, 3000)
 	cfg["max_virtual_s"] = 900
 	cfg["max_steps"] = 12000
@@ -256,7 +260,11 @@ func w1GenLease(r *rand.Rand, c *simrt.Case, nclients, maxOps int) {
 			switch x := r.IntN(10); {
 			case x < 2:
 				// every partition of the topic in one request: typically a mix of owned and foreign ones
-				c.Program = append(c.Program, simrt.Op{Actor: cl, Kind: "mproduce", B: int64(r.IntN(2)), C: int64(1 + r.IntN(3)), D: pick[int64](r, 1, -1)})
+				mb := int64(r.IntN(2))
+				if multiTopic && r.IntN(3) > 0 {
+					mb |= 2
+				}
+				c.Program = append(c.Program, simrt.Op{Actor: cl, Kind: "mproduce", B: mb, C: int64(1 + r.IntN(3)), D: pick[int64](r, 1, -1)})
 			case x < 7:
 				// E selects the broker the request goes to (any broker, owner or not)
 				c.Program = append(c.Program, simrt.Op{Actor: cl, Kind: "produce", B: int64(r.IntN(2)), C: int64(1 + r.IntN(3)), D: pick[int64](r, 1, -1), S: "", A: 0})
